@@ -74,7 +74,7 @@ Section Fuel.
 
   Lemma steps_no_fuel : forall rec g, rec_no_fuel rec g -> subs_exist g ->
     forall k cur items canc, incl cur (g_stages g) ->
-      steps F stream rec (g_stages g) (g_loop g) k cur items canc <> GFuel.
+      steps F stream rec (g_stages g) (g_loop g) (g_br g) k cur items canc <> GFuel.
   Proof.
     intros rec g Hrec Hsub. induction k as [|k IH]; intros cur items canc Hincl.
     - destruct cur; cbn; [discriminate|]. destruct canc; discriminate.
@@ -86,7 +86,8 @@ Section Fuel.
       destruct (any_int _).
       + destruct (first_lazy _); [discriminate|]. destruct (item_errors _); discriminate.
       + destruct rest as [|st' rest'].
-        * destruct (g_loop g); [|discriminate]. apply IH. apply incl_refl.
+        * destruct (branch_eval stream (g_br g) _); [|discriminate|discriminate].
+          destruct (g_loop g); [|discriminate]. apply IH. apply incl_refl.
         * apply IH. intros x Hx. apply Hincl. right. exact Hx.
   Qed.
 End Fuel.
@@ -107,62 +108,86 @@ Qed.
 
 (* ------------------------------------------------------------------ reaching the failing node *)
 
-(* [fails_at F stream g p r]: p leads from g through sub-graph nodes to a leaf whose task ends
-   with r; at every level the stages before the next node of p succeed (plain successful
-   lambdas) and the step limit leaves a step for it. *)
-Inductive fails_at (F : forest) (stream : bool) : graph -> list string -> err -> Prop :=
-| fa_leaf : forall g pre st post n es r,
-    g_stages g = pre ++ st :: post -> forallb (forallb ok_node) pre = true ->
+(* a stage that is passed quietly: every task of it ends without error, leaves nothing on its
+   output stream and does not cancel the context *)
+Definition quiet_stages (F : forest) (stream : bool) (rec : graph -> list item -> bool -> gres)
+                        (pre : list (list node)) : Prop :=
+  forall st n, In st pre -> In n st -> exec_node F stream rec [] false n = NOk [] false.
+
+Lemma ok_quiet : forall F stream rec pre, forallb (forallb ok_node) pre = true -> quiet_stages F stream rec pre.
+Proof.
+  intros F stream rec pre H st n Hst Hn. apply exec_ok_node.
+  rewrite forallb_forall in H. specialize (H st Hst). rewrite forallb_forall in H. apply H. exact Hn.
+Qed.
+
+(* [fails_at F stream d g p r] (d = nesting fuel of the run of g): p leads from g through
+   sub-graph nodes to a leaf whose task ends with r; at every level the stages before the next
+   node of p are passed quietly (whatever their nodes are: lambdas, tools, sub-graphs) and the
+   step limit leaves a step for it. *)
+Inductive fails_at (F : forest) (stream : bool) : nat -> graph -> list string -> err -> Prop :=
+| fa_leaf : forall d g pre st post n es r,
+    g_stages g = pre ++ st :: post -> quiet_stages F stream (run_graph F stream d) pre ->
     (List.length pre < effective_max g)%nat ->
     In n st -> is_leaf n = true -> exec_leaf stream [] n = NErr es -> In r es ->
     is_interrupt_task r = false ->
-    fails_at F stream g [node_key n] r
-| fa_sub : forall g pre st post k gi g' p r,
-    g_stages g = pre ++ st :: post -> forallb (forallb ok_node) pre = true ->
+    fails_at F stream (S d) g [node_key n] r
+| fa_sub : forall d g pre st post k gi g' p r,
+    g_stages g = pre ++ st :: post -> quiet_stages F stream (run_graph F stream d) pre ->
     (List.length pre < effective_max g)%nat ->
-    In (NSub k gi) st -> nth_error F gi = Some g' -> fails_at F stream g' p r ->
-    fails_at F stream g (k :: p) r.
+    In (NSub k gi) st -> nth_error F gi = Some g' -> fails_at F stream d g' p r ->
+    fails_at F stream (S d) g (k :: p) r.
 
-Lemma fails_at_not_interrupt : forall F stream g p r, fails_at F stream g p r -> is_interrupt_task r = false.
-Proof. intros F stream g p r H. induction H; assumption. Qed.
+Lemma fails_at_not_interrupt : forall F stream d g p r, fails_at F stream d g p r -> is_interrupt_task r = false.
+Proof. intros F stream d g p r H. induction H; assumption. Qed.
 
-Lemma fails_at_nonempty : forall F stream g p r, fails_at F stream g p r -> p <> [].
-Proof. intros F stream g p r H. destruct H; discriminate. Qed.
+Lemma fails_at_nonempty : forall F stream d g p r, fails_at F stream d g p r -> p <> [].
+Proof. intros F stream d g p r H. destruct H; discriminate. Qed.
 
 Lemma wrap_path_interrupt_task : forall p r, is_interrupt_task (wrap_path p r) = is_interrupt_task r.
 Proof. intros p r. rewrite wrap_path_is_apply_ws. apply interrupt_task_through_wrappers. Qed.
 
-Lemma steps_skip_quiet : forall F stream rec all loop pre cur k,
-  forallb (forallb ok_node) pre = true -> cur <> [] ->
-  steps F stream rec all loop (List.length pre + k) (pre ++ cur) [] false
-  = steps F stream rec all loop k cur [] false.
+Lemma quiet_stage_fold : forall F stream rec st,
+  (forall n, In n st -> exec_node F stream rec [] false n = NOk [] false) ->
+  stage_fold (map (fun n => (node_key n, exec_node F stream rec [] false n)) st) [] false [] false false = SOk [] false.
 Proof.
-  intros F stream rec all loop pre cur k. induction pre as [|st pre IH]; intros Hok Hne; [reflexivity|].
-  cbn [forallb] in Hok. apply andb_true_iff in Hok. destruct Hok as [Hst Hpre].
-  cbn [List.length plus app steps]. rewrite (ok_stage_fold F stream rec st Hst).
+  intros F stream rec st H.
+  assert (G : forall items, stage_fold (map (fun n => (node_key n, exec_node F stream rec [] false n)) st) items false [] false false = SOk items false).
+  { induction st as [|n st IH]; intros items; [reflexivity|].
+    cbn [map stage_fold]. rewrite (H n (or_introl eq_refl)). rewrite app_nil_r. cbn [orb].
+    apply IH. intros n' Hn'. apply H. right. exact Hn'. }
+  apply G.
+Qed.
+
+Lemma steps_skip_quiet : forall F stream rec all loop br pre cur k,
+  quiet_stages F stream rec pre -> cur <> [] ->
+  steps F stream rec all loop br (List.length pre + k) (pre ++ cur) [] false
+  = steps F stream rec all loop br k cur [] false.
+Proof.
+  intros F stream rec all loop br pre cur k. induction pre as [|st pre IH]; intros Hq Hne; [reflexivity|].
+  cbn [List.length plus app steps].
+  rewrite (quiet_stage_fold F stream rec st) by (intros n Hn; apply (Hq st n); [left; reflexivity|exact Hn]).
   destruct (pre ++ cur) as [|x rest] eqn:E.
   - exfalso. apply app_eq_nil in E. destruct E as [_ E]. contradiction.
-  - rewrite fan_nil. apply IH; assumption.
+  - rewrite fan_nil. apply IH; [|exact Hne]. intros st' n Hst' Hn. apply (Hq st' n); [right; exact Hst'|exact Hn].
 Qed.
 
 Lemma fails_at_run : forall F stream, forward F ->
-  forall g p r, fails_at F stream g p r ->
-  forall d i, nth_error F i = Some g -> (List.length F - i <= d)%nat ->
+  forall d g p r, fails_at F stream d g p r ->
+  forall i, nth_error F i = Some g -> (List.length F - i <= d)%nat ->
   exists es, run_graph F stream d g [] false = GFail es /\ In (wrap_path p r) es.
 Proof.
-  intros F stream HF g p r Hfa.
-  induction Hfa as [g pre st post n es r Hst Hpre Hmax Hn Hleaf Hex Hr Hni
-                   |g pre st post k gi g' p r Hst Hpre Hmax Hn Hg' Hfa IH];
-    intros d i Hg Hd.
-  - destruct d as [|d]; [exfalso; assert (i < List.length F)%nat by (apply nth_error_Some; congruence); lia|].
-    cbn [run_graph].
+  intros F stream HF d g p r Hfa.
+  induction Hfa as [d g pre st post n es r Hst Hpre Hmax Hn Hleaf Hex Hr Hni
+                   |d g pre st post k gi g' p r Hst Hpre Hmax Hn Hg' Hfa IH];
+    intros i Hg Hd.
+  - cbn [run_graph].
     replace (fanout (width_of_first (g_stages g)) []) with (@nil item)
       by (destruct (width_of_first (g_stages g)) as [|[|w]]; reflexivity).
     assert (Hin_st : In st (g_stages g)) by (rewrite Hst; apply in_or_app; right; left; reflexivity).
     set (all := g_stages g) at 1. rewrite Hst.
     replace (effective_max g) with (List.length pre + S (effective_max g - List.length pre - 1))%nat by lia.
     rewrite steps_skip_quiet by (assumption || discriminate).
-    destruct (step_reports_failure F stream (run_graph F stream d) all (g_loop g)
+    destruct (step_reports_failure F stream (run_graph F stream d) all (g_loop g) (g_br g)
                 (effective_max g - List.length pre - 1) st post [] n es r) as [es' [Hrun Hin]]; auto.
     + rewrite is_leaf_exec by exact Hleaf. exact Hex.
     + eapply stage_no_fuel; [| |exact Hin_st].
@@ -172,17 +197,16 @@ Proof.
       * intros st0 k0 gi0 Hst0 Hn0. destruct (HF i g st0 k0 gi0 Hg Hst0 Hn0) as [_ H2].
         apply nth_error_Some. exact H2.
     + exists es'. split; [exact Hrun|]. exact Hin.
-  - destruct d as [|d]; [exfalso; assert (i < List.length F)%nat by (apply nth_error_Some; congruence); lia|].
-    assert (Hin_st : In st (g_stages g)) by (rewrite Hst; apply in_or_app; right; left; reflexivity).
+  - assert (Hin_st : In st (g_stages g)) by (rewrite Hst; apply in_or_app; right; left; reflexivity).
     destruct (HF i g st k gi Hg Hin_st Hn) as [Hlt Hlen].
-    destruct (IH d gi Hg' ltac:(lia)) as [es0 [Hrun0 Hin0]].
+    destruct (IH gi Hg' ltac:(lia)) as [es0 [Hrun0 Hin0]].
     cbn [run_graph].
     replace (fanout (width_of_first (g_stages g)) []) with (@nil item)
       by (destruct (width_of_first (g_stages g)) as [|[|w]]; reflexivity).
     set (all := g_stages g) at 1. rewrite Hst.
     replace (effective_max g) with (List.length pre + S (effective_max g - List.length pre - 1))%nat by lia.
     rewrite steps_skip_quiet by (assumption || discriminate).
-    destruct (step_reports_failure F stream (run_graph F stream d) all (g_loop g)
+    destruct (step_reports_failure F stream (run_graph F stream d) all (g_loop g) (g_br g)
                 (effective_max g - List.length pre - 1) st post [] (NSub k gi) es0 (wrap_path p r))
       as [es' [Hrun Hin]]; auto.
     + cbn [exec_node]. rewrite Hg', Hrun0. reflexivity.
@@ -200,14 +224,14 @@ Definition stream_of (p : paradigm) : bool := match p with PInvoke => false | _ 
 
 (* through the public API *)
 Lemma failing_node_reported_lemma : forall g F' par p r,
-  forward (g :: F') -> fails_at (g :: F') (stream_of par) g p r ->
+  forward (g :: F') -> fails_at (g :: F') (stream_of par) (S (List.length (g :: F'))) g p r ->
   In (AErr (top_error par (wrap_path p r))) (answers (g :: F') par false None) /\
   (is_interrupt_error r = false ->
      msg_path (top_error par (wrap_path p r)) = p ++ np_of r /\
      np_of (top_error par (wrap_path p r)) = p ++ np_of r).
 Proof.
   intros g F' par p r HF Hfa. split.
-  - destruct (fails_at_run (g :: F') (stream_of par) HF g p r Hfa (S (List.length (g :: F'))) 0%nat eq_refl ltac:(lia))
+  - destruct (fails_at_run (g :: F') (stream_of par) HF _ g p r Hfa 0%nat eq_refl ltac:(lia))
       as [es [Hrun Hin]].
     unfold answers.
     replace (match par with PInvoke => false | _ => true end) with (stream_of par) by reflexivity.
@@ -269,4 +293,33 @@ Proof.
   pose proof (forwardb_from_sound (List.length F) F 0%nat H i g st (NSub k gi) Hg Hst Hn) as Hf.
   cbn [node_forward plus] in Hf. apply andb_true_iff in Hf. destruct Hf as [H1 H2].
   apply Nat.ltb_lt in H1. apply Nat.ltb_lt in H2. split; assumption.
+Qed.
+
+(* ------------------------------------------------------------------ the branch after the last stage *)
+
+Definition branch_origin (stream : bool) (u : err) : err :=
+  if stream then wrap_stream CollectByInvoke u else u.
+
+(* the tasks of the last stage succeed quietly and the branch condition returns u: the run fails
+   with u under key-free wrappers (recoverable by [orig_recoverable]); no node is named *)
+Lemma branch_failure_lemma : forall F stream rec all loop k st u,
+  (forall n, In n st -> exec_node F stream rec [] false n = NOk [] false) ->
+  steps F stream rec all loop (BrFail u) (S k) [st] [] false = GFail [branch_error (branch_origin stream u)] /\
+  exists ws, branch_error (branch_origin stream u) = apply_ws ws u /\ keys_of ws = [].
+Proof.
+  intros F stream rec all loop k st u Hq. split.
+  - cbn [steps]. rewrite (quiet_stage_fold F stream rec st Hq). reflexivity.
+  - unfold branch_origin. destruct stream.
+    + exists [WGraphRun; WWrapf; WWrapf; WWrapf; WStream CollectByInvoke]. split; reflexivity.
+    + exists [WGraphRun; WWrapf; WWrapf; WWrapf]. split; reflexivity.
+Qed.
+
+(* a panic that leaves the run of a sub-graph (a panicking branch condition, a panicking stream
+   read by the run loop) is the error of the sub-graph's node in the parent: contained by the
+   executor's recover one level up *)
+Lemma sub_run_panic_contained_lemma : forall F stream rec items canc k gi g' i,
+  nth_error F gi = Some g' -> rec g' items canc = GPanic i ->
+  exists j, exec_node F stream rec items canc (NSub k gi) = NErr [PanicErr j].
+Proof.
+  intros F stream rec items canc k gi g' i Hg Hr. cbn [exec_node]. rewrite Hg, Hr. eexists. reflexivity.
 Qed.
